@@ -36,3 +36,11 @@ impl Tr for Holder<'_> {
 pub fn conv_borrowed<'a>(r: rrtk::Reference<Holder<'a>>) -> rrtk::Reference<dyn Tr + 'a> {
     rrtk::to_dyn!(Tr, r)
 }
+/// `static_reference!` as a caller sees it (the macro names `Reference` unqualified, so this module - and only this
+/// module - imports it).  The analysis follows the pointer handed to `Reference::from_ptr` back to its origin.
+pub mod stat {
+    use rrtk::Reference;
+    pub fn make() -> Reference<u8> {
+        rrtk::static_reference!(u8, 5)
+    }
+}
